@@ -15,6 +15,8 @@
 
 #include "types.h"
 #include "array.h"
+#include "meta.h"
+#include "layout.h"
 #include "vf.h"
 
 const char *vf_name = "c06_cxx";
@@ -25,6 +27,7 @@ struct desc {
 	std::string name;
 	bool named;
 	bool ops;            /* init/fini expected non-null */
+	bool ops_unknown;    /* library type: operations not compared */
 };
 static std::map<int, desc> model;
 static int accepted, refused;
@@ -49,7 +52,8 @@ static void lookup(int id)
 	if (it == model.end()) return;
 	VF_CHECK(t, "cxx:get:registered-id-missing", "type_traits::get(0x%x) is NULL", id);
 	VF_CHECK(t->size == it->second.size, "cxx:get:size", "type_traits::get(0x%x)->size = %zu, type has %zu", id, t->size, it->second.size);
-	if (it->second.ops) VF_CHECK(t->init && t->fini, "cxx:get:operations-missing", "type_traits::get(0x%x) has no init/fini for a class type", id);
+	if (it->second.ops_unknown) { }
+	else if (it->second.ops) VF_CHECK(t->init && t->fini, "cxx:get:operations-missing", "type_traits::get(0x%x) has no init/fini for a class type", id);
 	else VF_CHECK(!t->init && !t->fini, "cxx:get:operations-changed", "type_traits::get(0x%x) has init/fini for a plain type", id);
 	vf_count("monitor:traits-compared", 1);
 	if (it->second.named) {
@@ -207,7 +211,138 @@ static int op_named(vf_rng *r, bool meta)
 	return id;
 }
 
-uint64_t vf_cases(void) { return vf_thorough ? 3000 : 300; }
+/* ------------------------------------------------------------------------
+ * ids the C++ library registers for itself (lazily, cached in function
+ * statics): metatype pointer types "generic", "basic", "mpt.layout",
+ * "mpt.graph" (anonymous fallback when the name is taken), value<T> pointer
+ * types (type_properties<config_item>::id is declared inline in config.h but
+ * defined in libmpt++ only and cannot be used from outside).  One C++ type has one id: stable over repeated queries,
+ * and only the first query adds an entry to the registry.
+ */
+struct libtype {
+	const char *what;
+	const char *wanted;   /* name the library asks for, 0: anonymous */
+	int kind;             /* 3 metatype, 1 generic */
+	size_t size;
+	int id;               /* 0: not known yet */
+	unsigned queries;
+};
+static libtype libs[] = {
+	{ "metatype::generic *",      "generic",    3, sizeof(void *), 0, 0 },
+	{ "metatype::basic *",        "basic",      3, sizeof(void *), 0, 0 },
+	{ "layout *",                 "mpt.layout", 3, sizeof(void *), 0, 0 },
+	{ "layout::graph *",          "mpt.graph",  3, sizeof(void *), 0, 0 },
+	{ "metatype::value<double> *", 0,           3, sizeof(void *), 0, 0 },
+	{ "metatype::value<TB> *",     0,           3, sizeof(void *), 0, 0 }
+};
+#define NLIBS ((int) (sizeof(libs) / sizeof(*libs)))
+static bool name_taken[NLIBS];
+
+static int count_entries(int kind)
+{
+	int n = 0;
+	if (kind == 3) {
+		for (int id = mpt::_TypeMetaPtrBase; id <= mpt::_TypeMetaPtrMax; id++) if (mpt::mpt_metatype_traits(id)) n++;
+	} else {
+		for (int id = mpt::_TypeValueAdd; id <= mpt::_TypeValueMax; id++) if (mpt::type_traits::get(id)) n++;
+	}
+	return n;
+}
+/* one query of library type k through one of its access paths; returns the id (<= 0: none) */
+static int lib_query(int k, int path)
+{
+	const mpt::named_traits *nt = 0;
+	switch (k) {
+	case 0:
+		switch (path % 4) {
+		case 0: return mpt::type_properties<mpt::metatype::generic *>::id(true);
+		case 1: nt = mpt::metatype::generic::pointer_traits(true); return nt ? (int) nt->type : -1;
+		case 2: {
+			const mpt::type_traits *t = mpt::type_properties<mpt::metatype::generic *>::traits();
+			if (t) VF_CHECK(t->size == sizeof(void *), "cxx:libtype:size", "type_properties<metatype::generic *>::traits()->size = %zu", t->size);
+			return mpt::type_properties<mpt::metatype::generic *>::id(false);
+		}
+		default: {
+			/* conversion of a generic metatype to a non-trivial type asks for the id internally */
+			int32_t v = 42; int64_t out = 0;
+			mpt::metatype::generic *g = mpt::metatype::generic::create('i', &v);
+			if (!g) return mpt::type_properties<mpt::metatype::generic *>::id(false);
+			int r = g->convert('x', &out);
+			VF_CHECK(r >= 0 && out == 42, "cxx:libtype:generic-convert", "generic('i' 42)->convert('x') = %d, value %lld", r, (long long) out);
+			g->unref();
+			return mpt::type_properties<mpt::metatype::generic *>::id(false);
+		}
+		}
+	case 1:
+		if (path & 1) { nt = mpt::metatype::basic::pointer_traits(true); return nt ? (int) nt->type : -1; }
+		return mpt::type_properties<mpt::metatype::basic *>::id(true);
+	case 2: nt = mpt::layout::pointer_traits(true); return nt ? (int) nt->type : -1;
+	case 3: nt = mpt::layout::graph::pointer_traits(true); return nt ? (int) nt->type : -1;
+	case 4:
+		if (path & 1) { nt = mpt::metatype::value<double>::pointer_traits(true); return nt ? (int) nt->type : -1; }
+		return mpt::type_properties<mpt::metatype::value<double> *>::id(true);
+	default: nt = mpt::metatype::value<TB>::pointer_traits(true); return nt ? (int) nt->type : -1;
+	}
+}
+static void op_lib(vf_rng *r, bool room)
+{
+	int k = (int) vf_below(r, NLIBS), path = (int) vf_below(r, 4);
+	libtype &l = libs[k];
+	int before3 = count_entries(3), before1 = count_entries(1);
+	vf_at("library type id");
+	int id = lib_query(k, path);
+	int d3 = count_entries(3) - before3, d1 = count_entries(1) - before1;
+	vf_count("library-type-query", 1);
+	vf_fp_u64(0x500000 + (uint64_t) k * 16 + (uint64_t) path);
+	vf_log("library type %s path %d -> 0x%x (entries added: metatype %d, generic %d)", l.what, path, id, d3, d1);
+	l.queries++;
+	if (id <= 0) {
+		VF_CHECK(!l.id, "cxx:libtype:id-not-stable", "id of %s was 0x%x, query %u gives %d", l.what, l.id, l.queries, id);
+		VF_CHECK(!d3 && !d1, "cxx:libtype:extra-registration", "refused query of %s added %d metatype / %d generic entries", l.what, d3, d1);
+		refused++;
+		vf_count("refused:library-type", 1);
+		if (room) vf_count("observe:refused-below-capacity", 1);
+		return;
+	}
+	if (!l.id) {
+		int lo = l.kind == 3 ? mpt::_TypeMetaPtrBase + 1 : mpt::_TypeValueAdd, hi = l.kind == 3 ? mpt::_TypeMetaPtrMax : mpt::_TypeValueMax;
+		check_id(l.what, id, lo, hi);
+		VF_CHECK((l.kind == 3 ? d3 : d1) == 1 && (l.kind == 3 ? d1 : d3) == 0, "cxx:libtype:extra-registration",
+		         "first query of %s (id 0x%x) added %d metatype and %d generic entries, one C++ type stands for one id", l.what, id, d3, d1);
+		l.id = id;
+		bool named = l.wanted && !name_taken[k];
+		desc d = { l.kind, l.size, named ? l.wanted : "", named, false, true };
+		model[id] = d;
+		accepted++;
+		vf_count("monitor:library-type-first-query", 1);
+		if (l.wanted && name_taken[k]) vf_count("monitor:library-type-name-was-taken", 1);
+	} else {
+		VF_CHECK(id == l.id, "cxx:libtype:id-not-stable", "id of %s was 0x%x, query %u (path %d) gives 0x%x", l.what, l.id, l.queries, path, id);
+		VF_CHECK(!d3 && !d1, "cxx:libtype:extra-registration", "repeated query of %s (id 0x%x) added %d metatype / %d generic entries", l.what, id, d3, d1);
+		vf_count("monitor:library-type-repeated-query", 1);
+	}
+	lookup(id);
+}
+/* the application registers the names the library wants for itself, first */
+static void take_names(vf_rng *r, bool all)
+{
+	for (int k = 0; k < NLIBS; k++) {
+		if (!libs[k].wanted || !(all || vf_chance(r, 1, 2))) continue;
+		vf_at("type_traits::add_metatype");
+		const mpt::named_traits *nt = mpt::type_traits::add_metatype(libs[k].wanted);
+		vf_count("type_traits::add_metatype", 1);
+		vf_fp_u64(0x600000 + (uint64_t) k);
+		if (!nt) { refused++; continue; }
+		check_id("type_traits::add_metatype", (int) nt->type, mpt::_TypeMetaPtrBase + 1, mpt::_TypeMetaPtrMax);
+		desc d = { 3, sizeof(void *), libs[k].wanted, true, false, false };
+		model[(int) nt->type] = d;
+		name_taken[k] = true;
+		accepted++;
+		vf_count("library-name-taken-first", 1);
+	}
+}
+
+uint64_t vf_cases(void) { return vf_thorough ? 4000 : 400; }
 
 void vf_case(uint64_t idx, vf_rng *r)
 {
@@ -216,9 +351,9 @@ void vf_case(uint64_t idx, vf_rng *r)
 	model.clear();
 	accepted = refused = 0;
 	vf_fp_u64(idx);
-	int mode = (int) (idx % 6);   /* 5: fill the generic range before the templates ask for ids */
+	int mode = (int) (idx % 8);   /* 5: fill the generic range before the templates ask for ids; 6, 7: library types */
 	int nops = vf_range(r, 20, 200);
-	bool filled = false;
+	bool filled = false, metafull = false;
 	if (mode == 0) builtins();
 	if (mode == 5) {
 		int pre = (int) vf_below(r, 4), n = 0;
@@ -230,7 +365,18 @@ void vf_case(uint64_t idx, vf_rng *r)
 		all_lookups();
 		vf_count("exhausted:generic", 1);
 	}
+	if (mode >= 6) {
+		/* mode 6: every wanted name is taken before the library's first query, 7: PRNG subset */
+		take_names(r, mode == 6);
+		if (idx % 32 >= 30) {   /* metatype range full: the library gets no id, and must not invent one */
+			while (mpt::type_traits::add_metatype(0)) { }
+			metafull = true;
+			vf_count("exhausted:metatype", 1);
+		}
+		for (int i = 0; i < 24; i++) op_lib(r, !metafull);
+	}
 	for (int i = 0; i < nops; i++) {
+		if (mode >= 6 && vf_chance(r, 1, 2)) { op_lib(r, !metafull); continue; }
 		switch (vf_below(r, 16)) {
 		case 0: op_add(r); break;
 		case 1: op_basic(r); break;
